@@ -52,6 +52,9 @@ add("C18", "z3 string/regex theory over the regex read from the repo for parse/f
 add("C19", "tree_utils traced to jaxprs with symbolic leaves and symbolic index (batch 1..5); pytrees equality helpers executed path by path on symbolic leaves.",
     "jaxpr->SMT symbolic execution (z3) with symbolic index + path-forking symbolic execution of testing.pytrees; replay on real code", "DESIGN.md 3/C19")
 
+add("C17", "Rubik moves pushed through the real move functions on symbolic stickers: permutation extraction (all colourings at once) vs an independent geometric model, group identities on the permutations, SMT queries for flat/unflat encodings, is_solved and sliding-tile moves.",
+    "jaxpr->SMT symbolic execution (z3) with permutation extraction + SMT queries; replay on real code", "DESIGN.md 3/C17")
+
 ALL = [f"C{i:02d}" for i in range(1, 20)]
 PENDING = "check under construction in this round; not claimed yet"
 
